@@ -528,6 +528,14 @@ func rollbackCases(c *common.Ctx) error {
 			h.Close()
 			continue
 		}
+		if i < 4 {
+			// the forced cases below journal the last page: make sure the newest transaction file - which Open re-applies
+			// after the rollback - does not hold that page (it would put it back whatever the rollback did)
+			if len(h.Ref.Pages) < 3 {
+				h.Exec(hist.Step{Op: "rtx", Writes: map[uint32]uint64{2: 170002, 3: 170003}, NewSize: 3})
+			}
+			h.Exec(hist.Step{Op: "rtx", Writes: map[uint32]uint64{1: 170001}, NewSize: uint32(len(h.Ref.Pages))})
+		}
 		pre := h.Ref.Clone()
 		prePos := h.RefPos
 		h.Node.Close()
